@@ -113,6 +113,10 @@ func (a arrM) MarshalZerologArray(arr *zerolog.Array) { ApplyArray(arr, a.E) }
 
 type CtxKey struct{}
 
+type badJSON struct{ msg string }
+
+func (b badJSON) MarshalJSON() ([]byte, error) { return nil, errors.New(b.msg) }
+
 func mkErr(tv *TV) error {
 	if tv == nil || tv.Nil {
 		return nil
@@ -549,6 +553,8 @@ func (tv *TV) Go() interface{} {
 		}{string(tv.S), int(atoi("0" + tv.I)), 0}
 	case "chan": // not marshalable: InterfaceMarshalFunc fails
 		return make(chan int)
+	case "badjson": // MarshalJSON fails, with an error text of arbitrary bytes: rendered as a "marshaling error: ..." string
+		return badJSON{string(tv.S)}
 	}
 	panic("prog: unknown typed value " + t)
 }
